@@ -37,6 +37,7 @@ def run(prog, chk):
     from props import C03
     C03.top_level_predicate(prog, chk)
     C03.qualified_names(prog, chk)  # start and end tag carry the same (qualified) name
+    C03.attrmap_keys_verbatim(prog, chk)  # an attribute stored under another name can collide with an existing one (duplicate attribute)
     no_double_hyphen_literals(prog, chk)
     attribute_lists_validated(prog, chk)
     from props import C01
